@@ -107,6 +107,12 @@ func (c *Client) Do(req *http.Request) (resp *http.Response, err error) {
 		return resp, err
 	}
 	if respUnauthorizedNegotiate(resp) {
+		if strings.HasPrefix(req.Header.Get(HTTPHeaderAuthRequest), HTTPHeaderAuthResponseValueKey+" ") {
+			// The request already carried a SPNEGO token and the server still challenges.
+			// Answering again would repeat for as long as the server keeps challenging,
+			// so return the 401 response to the caller.
+			return resp, nil
+		}
 		err := SetSPNEGOHeader(c.krb5Client, req, c.spn)
 		if err != nil {
 			return resp, err
